@@ -11,6 +11,13 @@ def _thaw(v):
 def replay(f):
     w = f["witness"]
     k = f["kind"]
+    if k == "reopen_differs":
+        from harness.c12_reopen_plain import scenario
+
+        problems = scenario(w["ops"])
+        return dict(reproduced=bool(problems), signature="reopen:%s" % (w["ops"],), detail="ops %s: %s" % (w["ops"], "; ".join(problems[:3])))
+    if k.startswith("history_"):
+        return dict(reproduced=None, signature="", detail="history conversion failures are replayed through value_repr only")
     if "value_repr" in w:
         value = eval(w["value_repr"], {"__builtins__": {}})  # produced by our own harness
     else:
